@@ -214,13 +214,29 @@ class _Raise(paramiko.MissingHostKeyPolicy):
         raise paramiko.SSHException("vf: custom policy says no")
 
 
+def _raiser(exc_factory):
+    class _R(paramiko.MissingHostKeyPolicy):
+        def missing_host_key(self, client, hostname, key):
+            raise exc_factory()
+    return _R
+
+
 class _Accept(paramiko.MissingHostKeyPolicy):
     def missing_host_key(self, client, hostname, key):
         return None
 
 
 POLICIES = dict(reject=(paramiko.RejectPolicy, False), autoadd=(paramiko.AutoAddPolicy, True),
-                warning=(paramiko.WarningPolicy, True), custom_raise=(_Raise, False), custom_accept=(_Accept, True))
+                warning=(paramiko.WarningPolicy, True), custom_raise=(_Raise, False), custom_accept=(_Accept, True),
+                # a policy that fails for any reason has not accepted the server
+                custom_raise_oserror=(_raiser(lambda: PermissionError(13, "vf: cannot record host key")), False),
+                custom_raise_ioerror=(_raiser(lambda: IOError("vf: known_hosts not writable")), False),
+                custom_raise_valueerror=(_raiser(lambda: ValueError("vf: policy bug")), False),
+                custom_raise_badhostkey=(_raiser(lambda: paramiko.BadHostKeyException("h", None, None)), False))
+STATES = ["same", "diff-same-type", "other-type-only", "hashed-same", "hashed-diff", "port-entry-same",
+          "port-entry-diff", "plain-entry-other-port", "none", "multi-host-line-same", "same-plus-other-type",
+          "multi-host-line-diff", "mixed-line-hashed-first-diff", "mixed-line-hashed-first-same",
+          "hashed-other-line-then-plain-diff"]
 KEYTYPES = ["rsa", "ecdsa", "ed25519"]
 METHODS = ["password", "pkey", "strategy-password", "strategy-pkey"]
 
@@ -232,8 +248,7 @@ def _key(kind, idx):
 
 def client_case(ctx, idx, combo=None):
     rng = ctx.rng
-    states = ["same", "diff-same-type", "other-type-only", "hashed-same", "hashed-diff", "port-entry-same",
-              "port-entry-diff", "plain-entry-other-port", "none", "multi-host-line-same", "same-plus-other-type"]
+    states = STATES
     state, pol, ktype, method = combo or (rng.choice(states), rng.choice(sorted(POLICIES)), rng.choice(KEYTYPES),
                                           rng.choice(METHODS))
     port = 2222 if state.startswith("port-entry") or state == "plain-entry-other-port" else 22
@@ -285,6 +300,17 @@ def client_case(ctx, idx, combo=None):
     elif state == "multi-host-line-same":
         text += line("a.example,%s,b.example" % name, server_key)
         known_applies = True
+    elif state == "multi-host-line-diff":
+        text += line("a.example,%s,b.example" % name, other_same_type)
+        known_applies = False
+    elif state.startswith("mixed-line-hashed-first"):
+        # one line listing several names, a hashed name of some other host first
+        k = server_key if state.endswith("same") else other_same_type
+        text += line("%s,%s" % (paramiko.HostKeys.hash_host("elsewhere.example"), name), k)
+        known_applies = state.endswith("same")
+    elif state == "hashed-other-line-then-plain-diff":
+        text += line(paramiko.HostKeys.hash_host("elsewhere.example"), server_key) + line(name, other_same_type)
+        known_applies = False
     elif state == "same-plus-other-type":
         text += line(name, other_type) + line(name, server_key)
         known_applies = True
@@ -386,8 +412,7 @@ def run(ctx):
         if time.time() < dl:
             ctx.guard(stage_case, ctx, i)
     # full matrix of known-state x policy, partitioned over shards; key type / method random
-    states = ["same", "diff-same-type", "other-type-only", "hashed-same", "hashed-diff", "port-entry-same",
-              "port-entry-diff", "plain-entry-other-port", "none", "multi-host-line-same", "same-plus-other-type"]
+    states = STATES
     combos = [(s, p) for s in states for p in sorted(POLICIES)]
     reps = ctx.pick(1, 4)
     k = 0
